@@ -74,6 +74,14 @@ class AbstractOnlineUpdateVisitor(AbstractAstVisitor):
         self.visited = dict()
         return super(AbstractOnlineUpdateVisitor, self).visitAst(ast, *args, **kwargs)
 
+    def reuse(self, node):
+        # this (sub-)formula was already updated in this update: every node of
+        # this occurrence takes the value computed for the first occurrence
+        self.results[node] = self.visited[node.name]
+        for child in node.children:
+            self.reuse(child)
+        return self.visited[node.name]
+
     def visitSpec(self, node, online_operator_dict, var_object_dict):
         sample_return = self.visit(node, online_operator_dict, var_object_dict)
         var_object_dict[node] = sample_return  #TODO subspec name is necessary as a key for var_object_dict.
@@ -82,8 +90,7 @@ class AbstractOnlineUpdateVisitor(AbstractAstVisitor):
 
     def visitBinary(self, node, online_operator_dict, var_object_dict):
         if node.name in self.visited:
-            self.results[node] = self.visited[node.name]
-            return self.visited[node.name]
+            return self.reuse(node)
         sample_left  = self.visit(node.children[0], online_operator_dict, var_object_dict)
         sample_right = self.visit(node.children[1], online_operator_dict, var_object_dict)
         operator = online_operator_dict[node.name]
@@ -94,8 +101,7 @@ class AbstractOnlineUpdateVisitor(AbstractAstVisitor):
 
     def visitUnary(self, node, online_operator_dict, var_object_dict):
         if node.name in self.visited:
-            self.results[node] = self.visited[node.name]
-            return self.visited[node.name]
+            return self.reuse(node)
         sample = self.visit(node.children[0], online_operator_dict, var_object_dict)
         op = online_operator_dict[node.name]
         sample_return = op.update(sample)
@@ -109,4 +115,5 @@ class AbstractOnlineUpdateVisitor(AbstractAstVisitor):
         elif isinstance(node, Variable):
             sample_return = self.visitVariable(node, online_operator_dict, var_object_dict)
         self.results[node] = sample_return
+        self.visited[node.name] = sample_return
         return sample_return
